@@ -1021,6 +1021,9 @@ def move_imports_to_toplevel(source: str) -> str:
         else:
             lineno = 1
 
+    # Line 0 does not exist, and would be interpreted as the last line
+    lineno = max(lineno, 1)
+
     additions = []
     removals = []
     for node in imports_movable_to_toplevel:
